@@ -486,8 +486,8 @@ def minimise(prop, exe, failure, oracle, ref_case_fn, tier):
           "switches_before": len(decisions), "switches_after": len(min_dec) if use_dec else None,
           "facts_before": sum(len(v) for v in w.facts.values()), "facts_after": sum(len(v) for v in cur.facts.values()),
           "how": "./check %s --replay <this file>" % prop}
-    outdir = os.path.join(VERIF, "findings", prop)
-    os.makedirs(outdir, exist_ok=True)
+    from .common import findings_dir
+    outdir = findings_dir(prop)
     name = hashlib.sha1(case.key().encode()).hexdigest()[:10]
     path = os.path.join(outdir, "psim_%s.replay.json" % name)
     with open(path, "w") as f:
